@@ -319,8 +319,26 @@ class C02(Prop):
             elif m < 5:
                 yield ("str_is_normal_form", {"v": a, "seed": sd})
             elif m < 7:
-                how = rng.choice(["same", "same", "adjacent", "adjacent", "pool"])
-                b = same_meaning(rng, a) if how == "same" else (G.neighbour(rng, a) if how == "adjacent" else rng.choice(pool))
+                how = rng.choice(["same", "same", "adjacent", "adjacent", "pool", "hashtwin"])
+                if how == "hashtwin":
+                    # a different version whose numbers CPython *hashes* like a's (ints are hashed modulo 2**61 - 1): an
+                    # equality that consults hashes, or a table keyed on them, confuses the two
+                    import sys as _sys
+                    M = _sys.hash_info.modulus * rng.choice([1, 1, 2])
+                    b = dict(a, release=list(a["release"]))
+                    where = rng.choice(["release", "release", "epoch", "pre", "post", "dev"])
+                    if where == "release":
+                        i = rng.randrange(len(b["release"])); b["release"][i] += M
+                    elif where == "epoch":
+                        b["epoch"] = (b.get("epoch") or 0) + M
+                    elif where == "pre" and b.get("pre"):
+                        b["pre"] = [b["pre"][0], b["pre"][1] + M]
+                    elif b.get(where) is not None and where in ("post", "dev"):
+                        b[where] = b[where] + M
+                    else:
+                        b["release"][-1] += M
+                else:
+                    b = same_meaning(rng, a) if how == "same" else (G.neighbour(rng, a) if how == "adjacent" else rng.choice(pool))
                 yield ("canon_complete_invariant", {"a": a, "b": b, "seed": sd})
             elif m < 9:
                 yield ("canon_laws", {"v": a, "seed": sd})
